@@ -10,11 +10,12 @@ FUNCS = ['taurex.binning.fluxbinner:FluxBinner.__init__', 'taurex.binning.fluxbi
 
 
 def _overlap(ctx, a, b, lo, hi):
-    """max(0, min(hi,b) - max(lo,a)) written independently of the code"""
-    top = ctx.ite(ctx.le_strict(hi, b), hi, b)
-    bot = ctx.ite(ctx.le_strict(lo, a), a, lo)
+    """max(0, min(hi,b) - max(lo,a)) written independently of the code (conditions the path already determines are
+    resolved, the others stay as if-then-else inside the formula)"""
+    top = ctx.ite_resolved(ctx.le_strict(hi, b), hi, b)
+    bot = ctx.ite_resolved(ctx.le_strict(lo, a), a, lo)
     d = top - bot
-    return ctx.ite(ctx.le_strict(d, 0), 0.0, d)
+    return ctx.ite_resolved(ctx.le_strict(d, 0), 0.0, d)
 
 
 @harness('C05', 'fluxbinner',
@@ -117,8 +118,9 @@ def fluxbinner(ctx, nn, nt, rows=0, err=False, widths=True, sorted_native=False)
         if e is not None:
             tote = sum((ov[i] * ov[i] * e[i] * e[i] for i in range(1, nn)), ov[0] * ov[0] * e[0] * e[0])
             oe = out_err[idx]
-            ctx.goal('err[%d]' % idx, ctx.implies(has, ctx.and_(ctx.le(0, oe),
-                                                                ctx.eq(oe * oe * O * O, tote))))
+            sq, is_root = ctx.squared(oe)
+            ctx.goal('err[%d]' % idx, ctx.implies(has, ctx.and_(is_root if ctx.sym else ctx.le(0, oe),
+                                                                ctx.eq(sq * O * O, tote))))
 
 
 @harness('C05', 'fluxbinner_linear',
